@@ -893,47 +893,84 @@ func (e *env) finish(id int) Rep {
 	created := e.alloc.created()
 	close(p.g.release)
 	o := <-p.done
+	// The requests that waited for this OPEN run now, concurrently with
+	// each other and with this goroutine: wait until they are through
+	// before anything is observed.
+	var outs []parkedOutcome
+	if p.req.Op == "OPEN" {
+		outs = e.collectParked()
+	}
 	if o.panicMsg != "" {
 		e.dead = true
 		e.tr.Emit(common.Ev{"ev": "panic", "msg": o.panicMsg, "pk": panicKind(o.panicMsg), "stack": o.stack, "req": p.req, "leaf": e.alloc.snapshot()})
 		return Rep{Pre: "PANIC", St: "PANIC"}
 	}
 	rep := e.reduce(&p.req, p.npre, created, o.res)
-	e.observe(common.Ev{"ev": "ioend", "id": id, "req": p.req, "rep": rep})
-	if p.req.Op == "OPEN" {
-		e.drain()
+	// One observation for the whole group (the OPEN and the requests
+	// that waited for it): "grp" = number of events of the group that
+	// follow, "grpn" = size of the group (0 = not part of a group). The
+	// observation is that of the state after the whole group; the trace
+	// specification judges it at the last event of the group.
+	done := 0
+	for _, out := range outs {
+		if out.got && out.o.panicMsg == "" {
+			done++
+		}
+	}
+	grpn := 0
+	if done > 0 {
+		grpn = done + 1
+	}
+	if !e.lockFree() {
+		e.lockHeld(p.req, rep)
+		return rep
+	}
+	leaf, hook := e.alloc.snapshot(), e.hook()
+	e.tr.Emit(common.Ev{"ev": "ioend", "id": id, "req": p.req, "rep": rep, "leaf": leaf, "hook": hook, "grp": done, "grpn": grpn})
+	left := done
+	for _, out := range outs {
+		q := out.p
+		if !out.got {
+			e.dead = true
+			e.tr.Emit(common.Ev{"ev": "hang", "id": q.id, "req": q.req})
+			break
+		}
+		if out.o.panicMsg != "" {
+			e.dead = true
+			e.tr.Emit(common.Ev{"ev": "panic", "msg": out.o.panicMsg, "pk": panicKind(out.o.panicMsg), "stack": out.o.stack, "req": q.req, "leaf": e.alloc.snapshot()})
+			break
+		}
+		left--
+		qrep := e.reduce(&q.req, q.npre, out.created, out.o.res)
+		e.tr.Emit(common.Ev{"ev": "op", "req": q.req, "rep": qrep, "leaf": leaf, "hook": hook, "grp": left, "grpn": grpn})
 	}
 	return rep
 }
 
-// drain collects the requests that waited for the OPEN that has just
-// completed: each must complete now; it is logged like a request sent at
-// this moment. One that is still parked on the (closed or forgotten)
-// channel of the completed transaction never will: that is logged.
-func (e *env) drain() {
+type parkedOutcome struct {
+	p       *pendingOp
+	o       opResult
+	got     bool
+	created int
+}
+
+// collectParked waits for the requests that waited for the OPEN that has
+// just completed: each must complete now (it is logged like a request
+// sent at this moment). One that is still parked on the channel of the
+// completed transaction never will. Completed requests come first in the
+// result, in the order in which they were sent (at most one of them is
+// not a retransmission of the OPEN, so their order does not matter).
+func (e *env) collectParked() []parkedOutcome {
 	ids := []int{}
 	for id := range e.parked {
 		ids = append(ids, id)
 	}
 	sort.Ints(ids)
-	// First wait for all of them (they run concurrently once woken, and
-	// the server must be quiet when it is observed; at most one of them
-	// is not a retransmission, so the order in which they are logged
-	// afterwards does not matter).
-	type outcome struct {
-		p       *pendingOp
-		o       opResult
-		got     bool
-		created int
-	}
-	outs := []outcome{}
+	outs, hung := []parkedOutcome{}, []parkedOutcome{}
 	for _, id := range ids {
 		p := e.parked[id]
 		delete(e.parked, id)
-		if e.dead {
-			continue
-		}
-		out := outcome{p: p, created: e.alloc.created()}
+		out := parkedOutcome{p: p, created: e.alloc.created()}
 		still := 0
 		deadline := time.Now().Add(120 * time.Second)
 		for !out.got {
@@ -959,31 +996,14 @@ func (e *env) drain() {
 			}
 			time.Sleep(2 * time.Millisecond)
 		}
-		if !out.got {
+		if out.got {
+			outs = append(outs, out)
+		} else {
 			leakedParked++
-		}
-		outs = append(outs, out)
-	}
-	for _, out := range outs {
-		p := out.p
-		if e.dead {
-			return
-		}
-		if !out.got {
-			e.dead = true
-			e.tr.Emit(common.Ev{"ev": "hang", "id": p.id, "req": p.req})
-			return
-		}
-		if out.o.panicMsg != "" {
-			e.dead = true
-			e.tr.Emit(common.Ev{"ev": "panic", "msg": out.o.panicMsg, "pk": panicKind(out.o.panicMsg), "stack": out.o.stack, "req": p.req, "leaf": e.alloc.snapshot()})
-			return
-		}
-		rep := e.reduce(&p.req, p.npre, out.created, out.o.res)
-		if !e.observe(common.Ev{"ev": "op", "req": p.req, "rep": rep}) {
-			return
+			hung = append(hung, out)
 		}
 	}
+	return append(outs, hung...)
 }
 
 func (e *env) tick(d int) {
